@@ -266,6 +266,8 @@ func init() {
 			}
 		}
 		exploreChoice(r, "c08.strict-profile", map[bool]int{false: 2, true: 3}[thorough(r)], dl)
+		exploreChoiceOpts(r, registerAfterPriorCalls("c08.coarse.cheap.p2.b1"), 2, dl, 1)
+		exploreChoiceOpts(r, registerAfterPriorCalls("c08.coarse.cheap.p1.b1"), 2, dl, 1)
 		c08stats.Publish(r)
 		r.Set("rule", "the claims-sets of C01 (coarse classes with <=2/3 deviations from 4 baselines per profile, fine sweeps, component lists; thorough: <=5 deviations for the non-signing gates) driven through the seven validating entry points and compared with Validate() and the non-validating sibling; distinct = distinct abstract claims-set; non-trivial = all but the valid baselines")
 		r.Set("distinct_nontrivial", max64(r.Get("states")-8, 0))
